@@ -136,6 +136,11 @@ def make_inputs(it, c, fd):
         it.reg.register_repo_class(fd.cls)
         selfobj = VObj(c.self_class or fd.cls.name)
         for f, t in (c.self_fields or {}).items():
+            if f == "__state":
+                if it.reg.automat is None:
+                    raise OutOfSubset("contract mentions __state but the registry has no Automat support (reg.automat)")
+                it.reg.automat.fresh_state(it, selfobj, fd.cls, "self")
+                continue
             selfobj.fields[f] = it.fresh(t, "self." + f)
         fr.locals["self"] = selfobj
         fr.selfobj = selfobj
@@ -188,11 +193,21 @@ def run_contract_path(c, reg, ctx):
             body_fr.locals[p.arg] = it.eval(d, Frame(None, fd.module))
     post_fr = Frame(fd, fd.module, selfobj, body_fr)   # parameters as given; falls through to the body's final locals
     post_fr.locals = dict(fr.locals)
+    is_input = False
+    if reg.automat is not None and fd.cls is not None:
+        mach = reg.automat.machine_of(fd.cls)
+        is_input = mach is not None and fd.qualname.split(".")[-1] in mach.inputs
     try:
         try:
             it.depth += 1
-            it.exec_block(fd.node.body, body_fr)
-            result = NONE
+            if is_input:
+                # an Automat input under contract: dispatched through the real transition table
+                argn = [a.arg for a in fd.node.args.args][1:]
+                result = reg.automat.maybe_dispatch(it, VFunc(fd, selfobj), fd, [selfobj] + [body_fr.locals[a] for a in argn],
+                                                    {}, body_fr)
+            else:
+                it.exec_block(fd.node.body, body_fr)
+                result = NONE
         except ReturnSig as r:
             result = r.value
         finally:
